@@ -13,6 +13,10 @@
       Scratch   buffer whose contents are never read before being written within
                 a call; only its (re-sliced) length may be observed
       External  reference to caller-owned data that must not survive release
+      ConstZero allocated once (zero-filled by the allocator) and then only read:
+                no function assigns, clears, re-slices or stores into it on the
+                acquire path, in the call body or on release, so every object -
+                fresh or pooled - holds the same (zero) value
 
     [reset_complete_b] is the finite check "every field classified, every Config
     and State field written on the acquire path, every External field cleared on
@@ -25,11 +29,11 @@ Import ListNotations.
 Open Scope string_scope.
 Open Scope list_scope.
 
-Inductive fclass := Config | State | Scratch | External.
+Inductive fclass := Config | State | Scratch | External | ConstZero.
 
 Definition fclass_eqb (a b : fclass) : bool :=
   match a, b with
-  | Config, Config | State, State | Scratch, Scratch | External, External => true
+  | Config, Config | State, State | Scratch, Scratch | External, External | ConstZero, ConstZero => true
   | _, _ => false
   end.
 
@@ -82,6 +86,7 @@ Definition field_ok (cls : list (string * fclass)) (assigned released : list str
   | Some State => mem f assigned
   | Some Scratch => true
   | Some External => mem f released || mem f assigned
+  | Some ConstZero => negb (mem f assigned) && negb (mem f released)
   end.
 
 Definition reset_complete_b (fields : list string) (cls : list (string * fclass))
@@ -126,6 +131,8 @@ Section Pool.
   Variable init : Args -> string -> Val.
   (** value written into External fields on release (nil) *)
   Variable nilv : Val.
+  (** the value every ConstZero field holds from allocation on *)
+  Variable zerov : Val.
 
   Definition fresh (a : Args) : obj := init a.
 
@@ -153,12 +160,12 @@ Section Pool.
   Definition class_is (c : fclass) (f : string) : Prop := lookup f cls = Some c.
 
   (** Frame condition (trusted): the result depends on the object only through
-      its Config and State fields and the observable shape of Scratch fields —
+      its Config, State and ConstZero fields and the observable shape of Scratch fields —
       never on Scratch contents, External references left by earlier calls, or
       fields outside the struct. *)
   Definition frame_condition : Prop :=
     forall a o o',
-      (forall f, In f fields -> class_is Config f \/ class_is State f -> o f = o' f) ->
+      (forall f, In f fields -> class_is Config f \/ class_is State f \/ class_is ConstZero f -> o f = o' f) ->
       (forall f, In f fields -> class_is Scratch f -> shape a (o f) = shape a (o' f)) ->
       fst (run a o) = fst (run a o').
 
@@ -219,6 +226,43 @@ Section Pool.
   Hypothesis Hframe : frame_condition.
   Hypothesis Hdim : dimension_gate_condition.
 
+  (** ConstZero fields: a fresh object holds [zerov] there, and the call body never
+      writes them (trusted; tied syntactically by the regenerated access lists, see
+      [constzero_fields_never_written] in PoolProofs). *)
+  Definition czero_inv (o : obj) : Prop :=
+    forall f, In f fields -> class_is ConstZero f -> o f = zerov.
+  Hypothesis Hcz_init : forall a, czero_inv (fresh a).
+  Hypothesis Hcz_run : forall a o, czero_inv o -> czero_inv (snd (run a o)).
+
+  Lemma constzero_untouched f :
+    In f fields -> class_is ConstZero f -> mem f assigned = false /\ mem f released = false.
+  Proof.
+    intros Hin Hc.
+    pose proof (reset_complete_field _ _ _ _ f Hcomplete Hin) as Hok.
+    unfold field_ok in Hok. unfold class_is in Hc. rewrite Hc in Hok.
+    apply andb_prop in Hok as [H1 H2].
+    split; [now apply negb_true_iff in H1 | now apply negb_true_iff in H2].
+  Qed.
+
+  Lemma reuse_inv a o : czero_inv o -> czero_inv (reuse a o).
+  Proof.
+    intros Ho f Hin Hc. unfold reuse.
+    destruct (constzero_untouched f Hin Hc) as [Ha _]. rewrite Ha. now apply Ho.
+  Qed.
+
+  Lemma release_inv o : czero_inv o -> czero_inv (release o).
+  Proof.
+    intros Ho f Hin Hc. unfold release.
+    destruct (constzero_untouched f Hin Hc) as [_ Hr]. rewrite Hr. now apply Ho.
+  Qed.
+
+  Lemma acquire_inv a got :
+    (forall o, got = Some o -> czero_inv o) -> czero_inv (acquire a got).
+  Proof.
+    intros Hg. destruct got as [o|]; cbn [acquire]; [|apply Hcz_init].
+    destruct (gate a o); [apply reuse_inv; now apply Hg | apply Hcz_init].
+  Qed.
+
   Lemma reuse_config_state a o f :
     In f fields -> class_is Config f \/ class_is State f -> reuse a o f = fresh a f.
   Proof.
@@ -230,21 +274,72 @@ Section Pool.
 
   (** the result of a call does not depend on which object the pool hands out *)
   Lemma acquire_out_independent a got :
+    (forall o, got = Some o -> czero_inv o) ->
     fst (run a (acquire a got)) = fst (run a (fresh a)).
   Proof.
-    destruct got as [o|]; cbn [acquire]; [|reflexivity].
-    destruct (gate a o) eqn:Hg; [|reflexivity].
+    intros Hg. destruct got as [o|]; cbn [acquire]; [|reflexivity].
+    destruct (gate a o) eqn:Hgate; [|reflexivity].
     apply Hframe.
-    - intros f Hin Hc. now apply reuse_config_state.
+    - intros f Hin [Hc|[Hc|Hc]].
+      + apply reuse_config_state; auto.
+      + apply reuse_config_state; auto.
+      + rewrite (reuse_inv a o (Hg o eq_refl) f Hin Hc). symmetry. now apply (Hcz_init a).
     - intros f Hin Hc. now apply Hdim.
   Qed.
 
-  Lemma step_out p a b : fst (step p (a, b)) = fst (run a (fresh a)).
+  Definition pool_inv (p : list obj) : Prop := Forall czero_inv p.
+
+  Lemma remove_nth_inv n p : pool_inv p -> pool_inv (remove_nth n p).
   Proof.
-    unfold step.
-    destruct (get (pick b) (apply_drops (drops b) p)) as [got p2].
-    pose proof (acquire_out_independent a got) as H.
+    revert n. induction p as [|x r IH]; intros n Hp; [destruct n; exact Hp|].
+    inversion Hp as [|? ? Hx Hr]; subst.
+    destruct n; cbn [remove_nth]; [exact Hr|]. constructor; [exact Hx|now apply IH].
+  Qed.
+
+  Lemma apply_drops_inv ds p : pool_inv p -> pool_inv (apply_drops ds p).
+  Proof.
+    unfold apply_drops. revert p. induction ds as [|d r IH]; intros p Hp; cbn [fold_left]; [exact Hp|].
+    apply IH. now apply remove_nth_inv.
+  Qed.
+
+  Lemma get_inv pk p got p' :
+    pool_inv p -> get pk p = (got, p') -> (forall o, got = Some o -> czero_inv o) /\ pool_inv p'.
+  Proof.
+    intros Hp Hg. unfold get in Hg. destruct pk as [i|].
+    - destruct (nth_error p i) as [o|] eqn:Hn.
+      + inversion Hg; subst. split.
+        * intros o' Ho'. inversion Ho'; subst.
+          unfold pool_inv in Hp. rewrite Forall_forall in Hp. apply Hp. eapply nth_error_In; eauto.
+        * now apply remove_nth_inv.
+      + inversion Hg; subst. split; [discriminate|exact Hp].
+    - inversion Hg; subst. split; [discriminate|exact Hp].
+  Qed.
+
+  Lemma step_out p a b : pool_inv p -> fst (step p (a, b)) = fst (run a (fresh a)).
+  Proof.
+    intros Hp. unfold step.
+    destruct (get (pick b) (apply_drops (drops b) p)) as [got p2] eqn:Hg.
+    destruct (get_inv _ _ _ _ (apply_drops_inv (drops b) p Hp) Hg) as [Hgot _].
+    pose proof (acquire_out_independent a got Hgot) as H.
     destruct (run a (acquire a got)) as [out o']. exact H.
+  Qed.
+
+  Lemma step_inv p c : pool_inv p -> pool_inv (snd (step p c)).
+  Proof.
+    intros Hp. destruct c as [a b]. unfold step.
+    destruct (get (pick b) (apply_drops (drops b) p)) as [got p2] eqn:Hg.
+    destruct (get_inv _ _ _ _ (apply_drops_inv (drops b) p Hp) Hg) as [Hgot Hp2].
+    pose proof (Hcz_run a _ (acquire_inv a got Hgot)) as Hr.
+    destruct (run a (acquire a got)) as [out o']. cbn [snd] in *.
+    destruct (keep b); [|exact Hp2]. constructor; [now apply release_inv|exact Hp2].
+  Qed.
+
+  Lemma run_history_inv h p : pool_inv p -> pool_inv (snd (run_history p h)).
+  Proof.
+    revert p. induction h as [|c r IH]; intros p Hp; cbn [run_history]; [exact Hp|].
+    pose proof (step_inv p c Hp) as Hs.
+    destruct (step p c) as [out p']. cbn [snd] in Hs.
+    specialize (IH p' Hs). destruct (run_history p' r) as [outs p'']. exact IH.
   Qed.
 
   Lemma run_history_app p h1 h2 :
@@ -267,18 +362,21 @@ Section Pool.
     - exact IH.
   Qed.
 
-  (** Any history, any pool contents at the start, any pool behaviour during the
-      history and during the last call: the last call returns what it returns as
-      the first call of a fresh process. *)
+  (** Any history, any pool contents at the start (objects this code allocated: their
+      ConstZero fields still hold the allocation value), any pool behaviour during the
+      history and during the last call: the last call returns what it returns as the
+      first call of a fresh process. *)
   Theorem history_independent :
     forall (h : list (Args * behaviour)) (a : Args) (b b0 : behaviour) (p0 : list obj),
+      pool_inv p0 ->
       out_of_last (run_history p0 (h ++ [(a, b)])) = out_of_last (run_history [] [(a, b0)]).
   Proof.
-    intros h a b b0 p0. unfold out_of_last.
+    intros h a b b0 p0 Hp0. unfold out_of_last.
     rewrite run_history_app.
-    set (p1 := snd (run_history p0 h)).
+    pose proof (run_history_inv h p0 Hp0) as Hp1.
+    set (p1 := snd (run_history p0 h)) in *.
     cbn [run_history].
-    pose proof (step_out p1 a b) as H1. pose proof (step_out [] a b0) as H2.
+    pose proof (step_out p1 a b Hp1) as H1. pose proof (step_out [] a b0 (Forall_nil _)) as H2.
     destruct (step p1 (a, b)) as [o1 q1]. destruct (step [] (a, b0)) as [o2 q2].
     cbn [fst snd] in *. rewrite last_map_app. cbn. congruence.
   Qed.
@@ -287,13 +385,14 @@ Section Pool.
       for every prefix at once) *)
   Theorem history_all_outputs_fresh :
     forall (h : list (Args * behaviour)) (p0 : list obj),
+      pool_inv p0 ->
       fst (run_history p0 h) = map (fun c => fst (run (fst c) (fresh (fst c)))) h.
   Proof.
-    induction h as [|[a b] r IH]; intro p0; [reflexivity|].
+    induction h as [|[a b] r IH]; intros p0 Hp0; [reflexivity|].
     cbn [run_history map fst].
-    pose proof (step_out p0 a b) as H.
-    destruct (step p0 (a, b)) as [out p']. cbn [fst] in H.
-    specialize (IH p'). destruct (run_history p' r) as [outs p'']. cbn [fst] in *.
+    pose proof (step_out p0 a b Hp0) as H. pose proof (step_inv p0 (a, b) Hp0) as Hs.
+    destruct (step p0 (a, b)) as [out p']. cbn [fst snd] in H, Hs.
+    specialize (IH p' Hs). destruct (run_history p' r) as [outs p'']. cbn [fst] in *.
     now rewrite H, IH.
   Qed.
 
@@ -312,13 +411,14 @@ End Pool.
 (** * The hypotheses are satisfiable, and each one is needed *)
 
 Module PoolExample.
-  (** A two-field object: "n" is State (a counter the call reads then bumps),
-      "buf" is Scratch.  A call returns arg + n. *)
-  Definition fields := ["n"; "buf"].
-  Definition cls := [("n", State); ("buf", Scratch)].
+  (** A three-field object: "n" is State (a counter the call reads then bumps),
+      "buf" is Scratch, "k" is ConstZero (read, never written).  A call returns
+      arg + n + k. *)
+  Definition fields := ["n"; "buf"; "k"].
+  Definition cls := [("n", State); ("buf", Scratch); ("k", ConstZero)].
   Definition init (a : nat) (f : string) : nat := 0.
   Definition run (a : nat) (o : string -> nat) : nat * (string -> nat) :=
-    (a + o "n", fun f => if String.eqb f "n" then S (o "n") else a).
+    (a + o "n" + o "k", fun f => if String.eqb f "n" then S (o "n") else if String.eqb f "k" then o "k" else a).
   Definition gate (a : nat) (o : string -> nat) := true.
   Definition shape (a : nat) (v : nat) := tt.
 
@@ -327,21 +427,41 @@ Module PoolExample.
 
   Lemma frame : frame_condition nat nat nat unit shape fields cls run.
   Proof.
-    intros a o o' Hcs _. unfold run; cbn [fst]. f_equal.
-    apply Hcs; [cbn; tauto|]. right. reflexivity.
+    intros a o o' Hcs _. unfold run; cbn [fst].
+    assert (Hn : o "n" = o' "n").
+    { apply Hcs; [cbn; tauto|]. right; left; reflexivity. }
+    assert (Hk : o "k" = o' "k").
+    { apply Hcs; [cbn; tauto|]. right; right; reflexivity. }
+    now rewrite Hn, Hk.
   Qed.
 
   Lemma dim : dimension_gate_condition nat nat unit shape fields cls ["n"] init gate.
   Proof. intros a o f _ _ _. reflexivity. Qed.
 
+  Lemma cz_init : forall a, czero_inv nat fields cls 0 (fresh nat nat init a).
+  Proof. intros a f _ _. reflexivity. Qed.
+
+  Lemma cz_run : forall a o, czero_inv nat fields cls 0 o -> czero_inv nat fields cls 0 (snd (run a o)).
+  Proof.
+    intros a o Ho f Hin Hc. unfold run; cbn [snd].
+    assert (f = "k") as ->.
+    { cbn in Hin. destruct Hin as [<-|[<-|[<-|[]]]]; [discriminate Hc|discriminate Hc|reflexivity]. }
+    cbn. apply Ho; [cbn; tauto|reflexivity].
+  Qed.
+
   (** with the reset in place: independent *)
   Example independent h a b b0 p0 :
+    pool_inv nat fields cls 0 p0 ->
     out_of_last _ _ (run_history nat nat nat ["n"] [] init 0 gate run p0 (h ++ [(a, b)]))
     = out_of_last _ _ (run_history nat nat nat ["n"] [] init 0 gate run [] [(a, b0)]).
-  Proof. exact (history_independent nat nat nat unit shape fields cls ["n"] [] init 0 gate run complete frame dim h a b b0 p0). Qed.
+  Proof. exact (history_independent nat nat nat unit shape fields cls ["n"] [] init 0 0 gate run complete frame dim cz_init cz_run h a b b0 p0). Qed.
 
   (** delete the reset line (assigned = []): the check fails … *)
   Example check_detects_missing_reset : reset_complete_b fields cls [] [] = false.
+  Proof. reflexivity. Qed.
+
+  (** … as it does when some function starts writing the ConstZero field *)
+  Example check_detects_constzero_write : reset_complete_b fields cls ["n"; "k"] [] = false.
   Proof. reflexivity. Qed.
 
   (** … and the model then exhibits a history whose last result differs from the
